@@ -252,6 +252,11 @@ let () =
                 Hashtbl.replace varidx (int_of_nat (snd res)) !nvars; incr nvars; set res
             | "un", [op; l] -> set (mk_unary f32 !a (op_of_name op) (nat_of_int (h l)))
             | "bin", [op; l; r] -> set (mk_bin f32 !a (op_of_name op) (nat_of_int (h l)) (nat_of_int (h r)))
+            | ("std" | "cstd"), k :: hs ->
+                if List.exists (fun s -> h s < 0) hs then add_handle (-1) else
+                (match std_dispatch f32 (nat_of_int (int_of_string k)) (List.map (fun s -> SH (nat_of_int (h s))) hs) with
+                 | Some e -> set (build f32 e !a)
+                 | None -> add_handle (-1))
             | "remap", [t; x; y; z] ->
                 set (mk_remap !a (nat_of_int (h t)) (nat_of_int (h x)) (nat_of_int (h y)) (nat_of_int (h z)))
             | "apply", [t; v; e] ->
